@@ -303,6 +303,8 @@ def run_einsum(ctx):
     ctx.sample({"part": "einsum", "expr": mid["expr"], "shapes": mid["shapes"], "set_iteration_orders": [o["perm"] for o in mid["orders"]],
                 "expected_head": mid["expected"][:6]})
     ctx.cov["exhaustive"] = True
+    ctx.cov["programs"] = len(programs)
+    ctx.cov["disagreements_checked"] = n_spec
     return len(programs)
 
 
@@ -322,6 +324,24 @@ def _baseline_of(opt, baseline):
     b.update(amp_model="default", preprocessor="default", use_tf_function=False, jit_compile=False,
              no_id_cached=False, lazy_call=False, nll=baseline)
     return b
+
+
+GROUPS = (("amp_model", "preprocessor"), ("use_tf_function", "jit_compile", "no_id_cached"), ("lazy_call",), ("nll",), ("float_shape",))
+
+
+def _projections(opt, baseline):
+    """the strategies that keep exactly one deviating option group of opt"""
+    base = _baseline_of(opt, baseline)
+    base["float_shape"] = False
+    out = []
+    for g in GROUPS:
+        if any(opt[k] != base[k] for k in g):
+            q = dict(base)
+            for k in g:
+                q[k] = opt[k]
+            if q != opt:
+                out.append(q)
+    return out
 
 
 def _want_nll(opt, quick):
@@ -365,6 +385,7 @@ def run_strategies(ctx, only=None):
         return refs[k]
 
     n_app = n_out = n_out_raise = n_out_same = n_out_diff = n_base = 0
+    failed = {}
     worst = {}
     t_start = time.time()
     for x in sel:
@@ -419,8 +440,15 @@ def run_strategies(ctx, only=None):
         if not bad:
             worst[name] = w
         if bad:
-            kinds = sorted(set(re.sub(r"\[.*", "", b[0]) for b in bad))
-            ctx.violation(key + ":" + "+".join(kinds), {"options": opt, "tolerance": tol, "differences": [[b[0], b[1]] for b in bad[:8]],
+            kinds = "+".join(sorted(set(re.sub(r"\[.*", "", b[0]) for b in bad)))
+            # root cause: a strategy that deviates in two option groups is attributed to the
+            # one-group strategy that already fails in the same way (executed earlier)
+            for g in _projections(opt, x["baseline"]):
+                if failed.get(S.opt_id(g)) == kinds:
+                    key = "strategy:" + S.opt_id(g)
+                    break
+            failed[name] = kinds
+            ctx.violation(key + ":" + kinds, {"strategy": name, "options": opt, "tolerance": tol, "differences": [[b[0], b[1]] for b in bad[:8]],
                                                         "events": [n_data, n_phsp], "seed": ctx.seed})
         if n_app == 3:
             ctx.sample({"part": "strategy", "options": opt, "max_relative_difference": w, "observers": n_obs})
